@@ -101,6 +101,20 @@ func apply(doc map[string]any, d deviation) bool {
 		lastSeg := i == len(d.Path)-1
 		switch c := cur.(type) {
 		case map[string]any:
+			if lastSeg && strings.HasPrefix(d.Shape, "dupfirst-without:") {
+				l, ok := c[k].([]any)
+				if !ok || len(l) == 0 {
+					return false
+				}
+				first, ok := l[0].(map[string]any)
+				if !ok {
+					return false
+				}
+				cp := clone(first).(map[string]any)
+				delete(cp, strings.TrimPrefix(d.Shape, "dupfirst-without:"))
+				c[k] = append([]any{cp}, l...)
+				return true
+			}
 			if lastSeg {
 				v, absent := shapeVal(d.Shape)
 				if absent {
@@ -210,7 +224,7 @@ func loadBases() []baseDoc {
 			d2 := clone(doc).(map[string]any)
 			delete(d2, "auth_pass")
 			delete(d2, "auth_name")
-			out = append(out, baseDoc{Name: "golden/" + e.Name() + "-noauth", Version: v, Doc: d2})
+			out = append(out, baseDoc{Name: "golden/" + e.Name() + "-noauth", Version: v, Doc: d2, Golden: true})
 		}
 	}
 	for v := 0; v <= int(last); v++ {
@@ -338,7 +352,13 @@ func (e *env) checkCase(b *baseDoc, devs []deviation, allSplits bool) {
 		if again.panicked != "" || again.err != nil || again.upgraded || !bytes.Equal(again.body, one.body) {
 			c.Violation("not-idempotent:"+b.Name, fmt.Sprintf("migrating the current-schema output again: upgraded=%v err=%v panic=%v", again.upgraded, again.err, again.panicked != ""), cs(0))
 		}
-		if len(devs) == 0 && b.Golden {
+		validIn := b.Golden && len(devs) == 0
+		if b.Golden && len(devs) == 1 && strings.HasPrefix(devs[0].Shape, "dupfirst-") {
+			// Duplicating a list element with one key left out keeps a
+			// document valid under its own schema (YAML keys are optional).
+			validIn = true
+		}
+		if validIn {
 			if lerr := home.VerifLoadConfig(one.body); lerr != nil {
 				c.Violation("loader-rejects:"+b.Name, fmt.Sprintf("loader rejects upgraded golden document: %v", lerr), cs(0))
 			}
@@ -511,6 +531,48 @@ func run(c *lib.Ctx) {
 		idx++
 	}
 	c.Note("bases", fmt.Sprintf("%d base documents (golden inputs + one minimal document per version)", len(bases)))
+	// List variants: every list of objects gets a second element which is a
+	// copy of the first without one of its keys, placed in front.
+	for i := range bases {
+		b := &bases[i]
+		if !b.Golden || b.SlowHash {
+			continue
+		}
+		var ps [][]string
+		paths(b.Doc, nil, &ps)
+		for _, p := range ps {
+			if p[len(p)-1] == "#0" || strings.Contains(strings.Join(p, "/"), "#") {
+				continue
+			}
+			var cur any = b.Doc
+			for _, k := range p {
+				cur = cur.(map[string]any)[k]
+			}
+			l, ok := cur.([]any)
+			if !ok || len(l) == 0 {
+				continue
+			}
+			first, ok := l[0].(map[string]any)
+			if !ok {
+				continue
+			}
+			keys := make([]string, 0, len(first)+1)
+			for k := range first {
+				keys = append(keys, k)
+			}
+			sort.Strings(keys)
+			keys = append(keys, "(none)")
+			for _, k := range keys {
+				if c.Mine(idx) {
+					d := deviation{Path: p, Shape: "dupfirst-without:" + k}
+					e.checkCase(b, []deviation{d}, true)
+					c.Count("listdup", 1)
+					c.Distinct("nontrivial", b.Name+"|"+strings.Join(p, ".")+"="+d.Shape)
+				}
+				idx++
+			}
+		}
+	}
 	// Deviation bound 1.
 	type site struct {
 		b *baseDoc
@@ -675,6 +737,7 @@ func main() {
 				"dev0":                m.Counters["dev0"],
 				"dev1":                m.Counters["dev1"],
 				"dev2":                m.Counters["dev2"],
+				"listdup":             m.Counters["listdup"],
 				"loader_checks":       m.Counters["loader_checks"],
 			}
 		},
